@@ -299,11 +299,11 @@ func TestC02(t *testing.T) {
 
 	// run: group by push setting, one server each, all inside one bubble
 	type obs struct {
-		reply   string
-		rerr    error
-		called  []string
-		alive   bool
-		outs    int
+		reply  string
+		rerr   error
+		called []string
+		alive  bool
+		outs   int
 	}
 	results := make([]obs, len(recs))
 	synctest.Test(t, func(t *testing.T) {
